@@ -63,6 +63,7 @@ M = [
  ("C13-push-ungated", "C13", "src/device.rs", "            | Operation::Sts\n            | Operation::Push\n            | Operation::Pop => {", "            | Operation::Sts\n            | Operation::Pop => {", "push allowed on Tiny1x parts"),
  ("C13-lpmx-needs-3-args", "C13", "src/device.rs", "Operation::Lpm if !op_args.is_empty() => self.allow(NoLpmX),", "Operation::Lpm if op_args.len() > 2 => self.allow(NoLpmX),", "lpm Rd,Z no longer gated by NoLpmX"),
  # ---- C14 syntax
+ ("C14-complexity-counts-block-comments", "C14", "src/parser.rs", "            // a block comment: skip to its end (the '/' that opened it was counted, drop it again)\n            '*' if previous == '/' => {\n                operators -= 1;\n                let mut last = ' ';\n                for c in chars.by_ref() {\n                    if last == '*' && c == '/' {\n                        break;\n                    }\n                    last = c;\n                }\n                previous = ' ';\n                continue;\n            }\n", "", "operators inside /* */ comments count against the per-operand limit again"),
  ("C14-upper-hex-0x", "C14", "src/document.rs", "/ \"0x\" n:$(['0'..='9' | 'A'..='F' | 'a'..='f']+)", "/ \"0x\" n:$(['0'..='9' | 'a'..='f']+)", "0x literals with upper-case digits no longer parse"),
  ("C14-upper-R", "C14", "src/document.rs", "= r_name:$(['r' | 'R'] ['0'..='9']*<1,2>)", "= r_name:$(['r'] ['0'..='9']*<1,2>)", "R16 is no longer a register"),
  ("C14-tab-not-space", "C14", "src/document.rs", "rule space() = [' ' | '\\t']*", "rule space() = [' ']*", "tabs no longer count as blanks"),
@@ -99,6 +100,25 @@ BENIGN = [
  ("B-reword-errors", [("src/instruction/mod.rs", "bail!(\"Relative address out of range (-64 <= k <= 63)\");", "bail!(\"branch target too far away\");"), ("src/builder/mod.rs", "\"Flash size overdue by {} bytes\",", "\"program does not fit into flash ({} bytes too many)\","), ("src/builder/pass1.rs", "\"{} segment exceeds the memory of the device by {}, {}\",", "\"{} segment too large for the device: {} over, {}\","), ("src/expr.rs", "\"Attempted to divide by zero: {:?} / {:?}\",", "\"division by zero in {:?} / {:?}\",")], "error texts reworded (line: N kept)"),
  ("B-btreemap", [("src/context.rs", "pub labels: Rc<RefCell<HashMap<String, (SegmentType, u32)>>>,", "pub labels: Rc<RefCell<std::collections::BTreeMap<String, (SegmentType, u32)>>>,"), ("src/context.rs", "labels: Rc::new(RefCell::new(hashmap! {})),", "labels: Rc::new(RefCell::new(std::collections::BTreeMap::new())),")], "label table becomes a BTreeMap"),
  ("B-rename-locals", [("src/builder/pass1.rs", "let mut code_offset = 0;", "let mut flash_words = 0;"), ("src/builder/pass1.rs", "SegmentType::Code => code_offset,", "SegmentType::Code => flash_words,"), ("src/builder/pass1.rs", "code_offset = current_end_offset;", "flash_words = current_end_offset;")], "locals renamed"),
+]
+
+# fix commits of /repo whose removal the named check must notice (`mutants.py reverts [id-prefix ...]`):
+# the commit is reverted on the scratch copy (reverse diff, 3-way), the unedited suite must stay green
+REVERTS = [
+ ("R-blank-after-block-comment", "C14", "e3d8187", "blank or second comment behind */ is a parse error"),
+ ("R-unparsable-nested-if", "C08", "1c8ebd6", "nested .if the grammar rejects not counted while skipping"),
+ ("R-register-like-symbols", "C10", "77de2f2", "-zero / r2d2 read as registers"),
+ ("R-ld-ldd-cross-forms", "C04", "7ec7a6a", "ldd r0, Y+ / ld r0, Y+5 assemble to the other mnemonic"),
+ ("R-duplicate-def", "C10", "bef9b26", "second .def of a taken name silently ignored"),
+ ("R-duplicate-equ", "C10", "7e031f3", ".equ defined twice / clashing with a label accepted"),
+ ("R-includepath-in-included-file", "C11", "6182b21", ".includepath inside an included file forgotten at its end"),
+ ("R-include-directory", "C11", "a9de6e3", "directory shadows a file; read errors do not name the file"),
+ ("R-macro-call-in-dseg", "C09", "aeeba39", "macro calls in .dseg/.eseg not expanded"),
+ ("R-device-two-operands", "C12", "e22c5cc", ".device A, B accepted"),
+ ("R-org-before-switch", "C02", "9630515 63de58d", ".org directly followed by a segment switch is lost"),
+ ("R-cli-non-utf8-name", "C18", "d77cbb4", "non-UTF-8 source name gives .hex"),
+ ("R-cli-same-output", "C18", "74ce6b5", "-o X -e X loses the flash image silently"),
+ ("R-includepath-panic", "C16", "7410e14", "relative .includepath in a macro body panics"),
 ]
 
 def sh(cmd, **kw):
@@ -146,6 +166,36 @@ def main():
             reset()
             err = apply_edits(repo, [(f, old, new)] + M_EXTRA.get(mid, []))
             rec = {"mutant": mid, "property": prop, "what": what, "time": time.strftime("%F %T")}
+            if err:
+                rec["status"] = "does-not-apply: " + err
+            else:
+                ok, tail = tests_green()
+                rec["suite_green"] = ok
+                if not ok:
+                    rec["status"] = "existing suite catches it (not a valid seeded break)"
+                else:
+                    ok, tail = build_harness()
+                    if not ok:
+                        rec["status"] = "harness build failed: " + tail
+                    else:
+                        code, sigs = run_check(prop)
+                        rec["exit"] = code; rec["signatures"] = sigs[:8]
+                        rec["status"] = "DETECTED" if code == 1 else "MISSED"
+            print(json.dumps(rec)); out.write(json.dumps(rec) + "\n"); out.flush()
+        reset()
+    elif mode == "reverts":
+        want = sys.argv[2:]
+        for (mid, prop, commits, what) in REVERTS:
+            if want and not any(mid.startswith(w) for w in want): continue
+            reset()
+            rec = {"mutant": mid, "property": prop, "what": "fix reverted: " + what, "time": time.strftime("%F %T")}
+            err = None
+            for c in reversed(commits.split()):
+                r = sh(f"git -C {repo} diff {c} {c}~1 | git -C {repo} apply -3 --whitespace=nowarn")
+                if r.returncode != 0 or sh(f"git -C {repo} diff --name-only --diff-filter=U").stdout.strip():
+                    err = f"revert of {c} does not apply: {r.stderr.strip()[:200]}"
+                    break
+            sh(f"git -C {repo} reset -q")
             if err:
                 rec["status"] = "does-not-apply: " + err
             else:
